@@ -11,6 +11,14 @@ for f in sorted(glob.glob("/verif/seeded/*/meta.json")):
     p = os.path.join(os.path.dirname(f), "SEED_NOTES.md")
     conf = (m.get("confirmed") or {}).get("ok")
     hist = m.get("history", [])
+    st = m.get("status", "")
+    if st.startswith("obsolete"):
+        # the seeded change no longer breaks the property on the current /repo HEAD (a later fix: commit removed what it relied on)
+        before = next((h for h in hist if h.get("caught")), None) or next((c for c in m.get("checks", {}).values() if c.get("caught")), None)
+        rows.append("| %s | %s | %s | at its base commit: yes; on /repo HEAD the change no longer breaks the property | %s | %s |" % (
+            sid, m["property"], m.get("files_changed", "").split(",")[0],
+            "obsolete (before the fix: %s)" % ("**caught**" if before else "not run"), st[:400].replace("|", "/")))
+        continue
     for prop, c in sorted(m.get("checks", {}).items()):
         fv = c.get("first_violation") or {}
         how = fv.get("kind", "")
